@@ -244,6 +244,9 @@ package cache
 //@ def present(c, kb) := hasH(c, hash(kb)) && bytes(ent(c, hash(kb)).K) == kb
 //@ def mapKept(c) := forall h uint64 :: hasH(c, h) == old(hasH(c, h)) && ent(c, h) == old(ent(c, h))
 //@ def entriesKept() := forall p *TraitEntry :: old(allocated(p)) ==> entryKept(p)
+// The janitor skips its scan in a cache configured with UnlimitedTTL as long as the counter of per-call TTLs is
+// zero (invokeCleanup, C11.skip). The skip is exact only under this invariant: such a cache holds no expiring entry.
+//@ def unlimitedInv(c) := c.t.Config.TimeToLive == UnlimitedTTL && c.t.expirationsSet == 0 ==> (forall h uint64 :: hasH(c, h) ==> ent(c, h).E == 0)
 
 //@ type hashedBucket
 //@   props C08 C16
@@ -297,6 +300,7 @@ package cache
 //@   ensures [C18.write.metric] c.t.Stat != nil ==> onlyMetric(MetricWrite, 1.0)
 //@   ensures [C18.write.nostat] c.t.Stat == nil ==> noMetric()
 //@   ensures [C07.write.repok] repOK(c)
+//@   ensures [C11.unl.write] old(unlimitedInv(c)) ==> unlimitedInv(c)
 //@   modifies H|TraitEntry|* E|byte|* M|map[uint64]*TraitEntry|* H|Trait|.expirationsSet @stat @log G|clock G|clk G|nclk G|rand
 
 // Delete: ErrNotFound exactly for keys that are not present (a colliding key is not present); otherwise the
@@ -395,9 +399,12 @@ package cache
 // timestamp read at the start of the call; keys and values are untouched.
 
 //@ func (*shardedMap).ExpireAll
-//@   props C07 C08 C16
-//@   replay entryrace backend:=sharded
+//@   props C07 C08 C16 C11
+//@   replayfor guard: entryrace backend:=sharded
+//@   replayfor C11.unl unlimited backend:=sharded
 //@   requires ctx != nil && repOK(c)
+//@   requires c.t.expirationsSet >= 0 && c.t.expirationsSet < 4611686018427387904
+//@   ensures [C11.unl.expireall] unlimitedInv(c)
 //@   ensures [C07.expireall.dom] mapKept(c)
 //@   ensures [C07.expireall.expired] forall h uint64 :: hasH(c, h) ==> ent(c, h).E == now(1)
 //@   ensures [C07.expireall.kv] forall p *TraitEntry :: old(allocated(p)) ==> p.K == old(p.K) && p.V == old(p.V) && p.C == old(p.C)
@@ -410,7 +417,7 @@ package cache
 //@   loop 2 invariant [C07.ea.in.visited] forall h uint64 :: h % 128 == i && visited(h) && hasH(c, h) ==> ent(c, h).E == startTS
 //@   loop 2 invariant [C07.ea.in.done] forall h uint64 :: h % 128 < i && hasH(c, h) ==> ent(c, h).E == startTS
 //@   loop 2 invariant [C07.ea.in.kv] forall p *TraitEntry :: old(allocated(p)) ==> p.K == old(p.K) && p.V == old(p.V) && p.C == old(p.C)
-//@   modifies H|TraitEntry|.E* M|map[uint64]*TraitEntry|* @stat @log @clock
+//@   modifies H|TraitEntry|.E* M|map[uint64]*TraitEntry|* H|Trait|.expirationsSet @stat @log @clock
 
 // DeleteAll: the cache is empty afterwards.
 
@@ -429,6 +436,7 @@ package cache
 
 //@ func (*shardedMapOf[V]).ExpireAll
 //@   like (*shardedMap).ExpireAll subst TraitEntry=TraitEntryOf[V]
+//@   replayfor C11.unl unlimited backend:=shardedof
 //@ func (*shardedMapOf[V]).DeleteAll
 //@   like (*shardedMap).DeleteAll subst TraitEntry=TraitEntryOf[V]
 
@@ -440,6 +448,7 @@ package cache
 //@ def sGet(c, s) := smGet(c.data, s)
 //@ def sEnt(c, s) := payload(smGet(c.data, s), *TraitEntry)
 //@ def sRepOK(c) := c.t != nil && smValuesAre(c.data, *TraitEntry)
+//@ def sUnlimitedInv(c) := c.t.Config.TimeToLive == UnlimitedTTL && c.t.expirationsSet == 0 ==> (forall s string :: sHas(c, s) ==> sEnt(c, s).E == 0)
 //@ def sMapKept(c) := forall s string :: sHas(c, s) == old(sHas(c, s)) && sGet(c, s) == old(sGet(c, s))
 
 //@ func (*syncMap).Read
@@ -484,6 +493,7 @@ package cache
 //@       abs(real(sEnt(c, kb).E - now(1)) - real(T)) <= abs(real(T)) * J / 2.0 + 1.0 + abs(real(T)) * J / 1125899906842624.0
 //@   ensures [C18.sm.write.metric] c.t.Stat != nil ==> onlyMetric(MetricWrite, 1.0)
 //@   ensures [C07.sm.write.repok] sRepOK(c)
+//@   ensures [C11.unl.sm.write] old(sUnlimitedInv(c)) ==> sUnlimitedInv(c)
 //@   modifies H|TraitEntry|* E|byte|* SM|* H|Trait|.expirationsSet @stat @log G|clock G|clk G|nclk G|rand
 
 // Delete: "removes a cache entry with a given key and returns ErrNotFound for non-existent keys" (cache.go, Deleter).
@@ -1054,15 +1064,19 @@ package cache
 //@   immutable InvalidationIndex t
 
 //@ func (*syncMap).ExpireAll
-//@   props C07 C16
+//@   props C07 C16 C11
+//@   replayfor C11.unl unlimited backend:=syncmap
 //@   requires ctx != nil && sRepOK(c)
+//@   requires c.t.expirationsSet >= 0 && c.t.expirationsSet < 4611686018427387904
+//@   ensures [C11.unl.sm.expireall] sUnlimitedInv(c)
 //@   ensures [C07.sm.expireall.dom] sMapKept(c)
 //@   ensures [C07.sm.expireall.expired] forall s string :: sHas(c, s) ==> sEnt(c, s).E == now(1)
 //@   ensures [C07.sm.expireall.kv] forall p *TraitEntry :: old(allocated(p)) ==> p.K == old(p.K) && p.V == old(p.V) && p.C == old(p.C)
 //@   range 1 invariant [C07.sm.ea.dom] sMapKept(c) && smValuesAre(c.data, *TraitEntry) && startTS == now(1)
 //@   range 1 invariant [C07.sm.ea.visited] forall s string :: visited(s) && sHas(c, s) ==> sEnt(c, s).E == startTS
 //@   range 1 invariant [C07.sm.ea.kv] forall p *TraitEntry :: old(allocated(p)) ==> p.K == old(p.K) && p.V == old(p.V) && p.C == old(p.C)
-//@   replay entryrace backend:=syncmap
+//@   range 1 invariant [C11.unl.sm.ea.counter] c.t.expirationsSet >= 1
+//@   replayfor guard: entryrace backend:=syncmap
 
 //@ func (*syncMap).DeleteAll
 //@   props C07 C16
@@ -1102,15 +1116,19 @@ package cache
 //@ func (*ShardedMap).Restore
 //@   props C13 C09
 //@   requires c.shardedMap != nil && repOK(c.shardedMap) && distinctHashes()
+//@   requires c.shardedMap.t.expirationsSet >= 0 && c.shardedMap.t.expirationsSet < 4611686018427387904 - gobLen()
 //@   requires gobPos() <= gobLen() && gobLen() < 4611686018427387904
 //@   let p0 := old(gobPos())
 //@   ensures [C13.restore.count] result0 == gobPos() - p0
 //@   ensures [C13.restore.eof] result1 == nil ==> gobPos() == gobLen()
 //@   ensures [C13.restore.entries] forall j int :: p0 <= j && j < gobPos() ==> recStored(c.shardedMap, j)
+//@   ensures [C11.unl.restore] old(unlimitedInv(c.shardedMap)) ==> unlimitedInv(c.shardedMap)
+//@   loop 1 invariant [C11.unl.restore.inv] (old(unlimitedInv(c.shardedMap)) ==> unlimitedInv(c.shardedMap)) && c.shardedMap.t.expirationsSet >= old(c.shardedMap.t.expirationsSet) && c.shardedMap.t.expirationsSet <= old(c.shardedMap.t.expirationsSet) + n
 //@   loop 1 invariant [C13.restore.inv.count] n == gobPos() - p0 && n >= 0 && p0 <= gobPos() && gobPos() <= gobLen()
 //@   loop 1 invariant [C13.restore.inv.entries] forall j int :: p0 <= j && j < gobPos() ==> recStored(c.shardedMap, j)
 //@   loop 1 invariant [C13.restore.inv.rep] repOK(c.shardedMap)
 //@   replay restore backend:=sharded
+//@   replayfor C11.unl unlimited backend:=sharded
 
 // Dump (C13), sequential contract (no concurrent writer while dumping), relative to the assumed encoding/gob
 // contract. Ghost: gobSrc(j) is the entry record j was encoded from, gobIdx(p) the index entry p was encoded at.
@@ -1155,15 +1173,20 @@ package cache
 //@ func (*ShardedMapOf[V]).Restore
 //@   like (*ShardedMap).Restore subst recStored=recStoredOf shardedMap=shardedMapOf
 //@   replay restore backend:=shardedof
+//@   replayfor C11.unl unlimited backend:=shardedof
 
 //@ func (*SyncMap).Restore
 //@   props C13 C09
 //@   requires c.syncMap != nil && sRepOK(c.syncMap) && distinctKeys()
+//@   requires c.syncMap.t.expirationsSet >= 0 && c.syncMap.t.expirationsSet < 4611686018427387904 - gobLen()
 //@   requires gobPos() <= gobLen() && gobLen() < 4611686018427387904
 //@   let p0 := old(gobPos())
 //@   ensures [C13.sm.restore.count] result0 == gobPos() - p0
 //@   ensures [C13.sm.restore.eof] result1 == nil ==> gobPos() == gobLen()
 //@   ensures [C13.sm.restore.entries] forall j int :: p0 <= j && j < gobPos() ==> recSMStored(c.syncMap, j)
+//@   ensures [C11.unl.sm.restore] old(sUnlimitedInv(c.syncMap)) ==> sUnlimitedInv(c.syncMap)
+//@   loop 1 invariant [C11.unl.sm.restore.inv] (old(sUnlimitedInv(c.syncMap)) ==> sUnlimitedInv(c.syncMap)) && c.syncMap.t.expirationsSet >= old(c.syncMap.t.expirationsSet) && c.syncMap.t.expirationsSet <= old(c.syncMap.t.expirationsSet) + n
+//@   replayfor C11.unl unlimited backend:=syncmap
 //@   loop 1 invariant [C13.sm.restore.inv.count] n == gobPos() - p0 && n >= 0 && p0 <= gobPos() && gobPos() <= gobLen()
 //@   loop 1 invariant [C13.sm.restore.inv.entries] forall j int :: p0 <= j && j < gobPos() ==> recSMStored(c.syncMap, j)
 //@   loop 1 invariant [C13.sm.restore.inv.rep] sRepOK(c.syncMap)
